@@ -376,7 +376,19 @@ class Gen:
             if k == "elem":
                 return self.elem(d - 1)
             return self.child(d)
-        return "".join(self.child(d) for _ in range(2 + r.below(3)))
+        parts, live = [], 0
+        for _ in range(2 + r.below(3)):
+            nf = set(self.feat)
+            self.feat.discard("child:expr"); self.feat.discard("child:elem"); self.feat.discard("child:frag"); self.feat.discard("child:spread")
+            parts.append(self.child(d))
+            if {"child:expr", "child:elem", "child:frag", "child:spread"} & self.feat:
+                live += 1
+            self.feat |= nf
+        if live <= 1:
+            # empty expressions, comments and text that cleans to "" leave at most one live child:
+            # the element may take the single-child path after all
+            self.f("single:maybe")
+        return "".join(parts)
 
     def elem(self, d=2):
         r = self.r
@@ -551,6 +563,11 @@ SCOPE_CTX = [
     "if (a) b = {E}; else b = {F};\n", "do { b = {E} } while (0);\n", "({E});\n",
     "const arr = [{E}, () => {F}];\n", "foo = {E};\nval = {F};\n",
     "class W2 extends Foo { constructor() { super(); this.x = {E} } static { b = {F} } }\n",
+    # a component whose only child is the variable being assigned: the child is captured in a copy
+    "const f5 = (a) => (a = <Comp>{a}</Comp>);\n", "const f6 = (val) => { val = <Comp>{val}</Comp>; return {E} };\n",
+    "function f7(foo) { return foo = <NS.Item>{foo}</NS.Item> }\n", "b = <Comp>{b}</Comp>;\n",
+    "class W3 { m(a) { a = <Comp>{a}</Comp>; return a } }\n", "const f8 = (q = (b = <Comp>{b}</Comp>)) => q;\n",
+    "const f9 = (a) => [a = <Comp>{a}</Comp>, {E}];\n", "for (let a = 0; a < 1; a++) a = <Comp>{a}</Comp>;\n",
 ]
 SCOPE_SPECIAL = [
     "<Comp>{fn()}</Comp>", "<Comp>{a}</Comp>", "<NS.Item>{foo}</NS.Item>", "<Comp>{g(1)}{h()}</Comp>", "<>{a}<b>t</b></>",
@@ -719,9 +736,13 @@ class TGen(Gen):
     def enc(self, M, d):
         """a type expression denoting exactly the prop map M"""
         r = self.r
-        ops = ["lit"] if d <= 0 else ["lit", "alias", "iface", "extends", "merge", "inter", "paren", "partial", "required",
+        ops = ["lit"] if d <= 0 else ["lit", "alias", "iface", "extends", "merge", "inter", "paren", "partial", "partial", "required", "required",
                                       "pick", "pick", "omit", "omit", "index", "chain"]
         op = r.pick(ops)
+        force = getattr(self, "force_op", None)
+        if force and d > 0:
+            op = force
+            self.force_op = None
         plain = [m for m in M if m[3] != "getter"]
         if op == "partial" and not (M and all(m[1] for m in plain)):
             op = "lit"
@@ -790,11 +811,20 @@ class TGen(Gen):
         n = r.below(5)
         keys = list(PROP_KEYS)
         M = []
-        for _ in range(n):
+        focus = getattr(self, "focus_ops", False)
+        if focus:
+            n = 2 + r.below(3)
+        for j in range(n):
             k = keys.pop(r.below(len(keys)))
-            kind = r.wpick([(6, "prop"), (1, "method"), (1, "getter")])
+            kind = r.wpick([(6, "prop"), (2, "method"), (1, "getter")])
+            if focus and j == 0:
+                kind = "method"
             tt, kk, tg = self.atype(1)
-            M.append((k, r.chance(1, 2) if kind != "getter" else False, tt, kind, kk if kind != "method" else {"function"}, sorted(tg)))
+            opt = r.chance(1, 2) if kind != "getter" else False
+            if focus:
+                # Partial<> needs an all-optional map, Required<> an all-required one
+                opt = (self.force_op == "partial") if kind != "getter" else False
+            M.append((k, opt, tt, kind, kk if kind != "method" else {"function"}, sorted(tg)))
         return M
 
     def events(self):
@@ -964,6 +994,10 @@ def gen_types_cases(seed, n, start_id=0):
     out = []
     for i in range(n):
         g = TGen(Rng(seed * 7368787 + i))
+        if i % 6 == 5:
+            # every sixth module: a utility type over a map that contains a method signature
+            g.focus_ops = True
+            g.force_op = g.r.pick(["required", "partial", "pick", "omit"])
         src, truth = g.ts_module()
         o = {"resolveType": True}
         r = g.r
